@@ -8,3 +8,6 @@ def run(ck):
     ob = provers.analyse(ck)
     ob.emit(ck, "C14")
     ck.floor("INV", "provers/obligations", len([1 for it in ob.items if "C14" in it[0]]), 18, "C14 obligations evaluated")
+    if ck.tier == "thorough":
+        from . import witnesses
+        witnesses.run(ck, ["witness_filler_private"])
